@@ -82,7 +82,7 @@ Section DetC.
       + intros t'' bt' Ht''. destruct (F t'') as (_&E'&_). rewrite E' in Ht''. eauto.
     - intros t' r' Ht. destruct (F t') as (_&_&E&_). rewrite E in Ht. destruct (J6 t' r' Ht) as (X1&X2&X3&X4&X5&X6).
       destruct (Nat.eq_dec r' r) as [->|N].
-      + rewrite Es. cbn. repeat split; auto. rewrite <- Esl, Es in X5. exact X5.
+      + rewrite Es. cbn. repeat split; auto.
       + rewrite (Eo r' N). repeat split; auto. assert (t' <> t). { intros ->. congruence. } now rewrite (V t' H).
     - intros t' r' Ht. destruct (F t') as (_&_&E3&E4&_). rewrite E4 in Ht. rewrite E3. destruct (J7 t' r' Ht) as (X1&X2&X3). split; auto.
       destruct (Nat.eq_dec r' r) as [->|N]; [rewrite Es; exact X1|now rewrite (Eo r' N)].
